@@ -259,7 +259,9 @@ def h_jwe_header(ctx):
         cls = f"whole {pos} header replaced by JSON {type(v).__name__}"
     elif mode == "epk-member":
         name = ctx.choose("epk_member", ["kty", "crv", "x", "y", "d", "use", "key_ops", "alg", "kid", "x5c", "x5u", "oth", "k"])
-        v = ctx.choose("value", ["<deleted>"] + values() + [["enc"], [["enc"]], ["deriveKey", {}], "enc", "sig"])
+        # coordinates of every length class: one octet short, zero-padded by one, one / many octets too long (leading octet non-zero), empty
+        coords = [b64.enc(bytes([0x5a]) * n) for n in (1, 31, 33, 47, 49, 65, 67, 200)] + [b64.enc(b"\0" + bytes([0x5a]) * 32), b64.enc(b"\xff" * 32), b64.enc(b"\xff" * 66)]
+        v = ctx.choose("value", ["<deleted>"] + values() + [["enc"], [["enc"]], ["deriveKey", {}], "enc", "sig"] + (coords if name in ("x", "y", "d") else []))
         prot = dict(t["protected"])
         rh = dict(t["recipients"][0][0] or {})
         epk_in = prot if "epk" in prot else rh
@@ -677,6 +679,54 @@ def h_recipient_order(ctx):
     return Outcome(b, vs, nontrivial=(alg, kind, order, verify_all, name, repr(v)))
 
 
+# ------------------------------------------------------------------ E3: two tokens consumed at once through one registry
+T_TOKENS = [("dir", "oct16", "valid"), ("A128KW", "oct16", "valid"), ("ECDH-ES", "P-256", "valid"), ("A128GCMKW", "oct16", "valid"), ("PBES2-HS256+A128KW", "oct20", "valid"),
+            ("ECDH-ES+A128KW", "X25519", "valid"), ("A128KW", "oct16", "unknown header member"), ("ECDH-ES", "P-256", "epk is a number")]
+
+
+def h_threads(ctx):
+    """Two decryptions at the same time through ONE registry the application holds (fresh for every schedule, so each algorithm family is
+    met for the first time): nothing but JoseError / ValueError escapes, and the valid tokens are decrypted."""
+    from .. import conc
+    from joserfc import jwe
+
+    def op(spec):
+        alg, kind, what = spec
+        t = jwe_seed(alg, kind, "A128GCM", "compact")
+        prot = dict(t["protected"])
+        if what == "unknown header member":
+            prot["foo"] = "x"
+        elif what == "epk is a number":
+            prot["epk"] = 123
+        tok = jwe_wire(t, "compact", prot_text=rjws.hdr_json(prot) if prot != t["protected"] else None)
+        jwk = scen.key(kind)
+
+        def run(sh):
+            return (spec, call(lambda: bytes(jwe.decrypt_compact(tok, sh[kind], registry=sh["registry"]).plaintext)))
+        return (f"decrypt {alg} token ({what})", run)
+
+    def shared():
+        scen.register_drafts()
+        sh = {k: A.jkey(scen.key(k), "dict") for k in {s_[1] for s_ in T_TOKENS}}
+        sh["registry"] = jwe.JWERegistry(algorithms=scen.JWE_ALL)
+        return sh
+
+    def judge(name, o, sh):
+        (alg, kind, what), r = o
+        b, vs = judge_call(name, r)
+        if vs:
+            return vs
+        if what == "valid" and (not r.ok or r.value != CLAIMS):
+            return [("a valid token is not decrypted while another token is consumed through the same registry", f"{name}: {r.exc!r}")]
+        return None
+
+    def judge_call(name, r):
+        if r.ok or isinstance(r.exc, ok_exc()):
+            return "ok", []
+        return "ESCAPE", [(f"jwe.decrypt_compact escapes with {type(r.exc).__name__} at {inner_frame(r.exc)} while another token is consumed through the same registry", f"{name}: {r.exc!r}")]
+    return conc.pairs(ctx, [op(s_) for s_ in T_TOKENS], shared, judge, thorough=config.thorough())
+
+
 PARTS = [
     Part("key-mismatch", h_key_mismatch, split_depth=3),
     Part("jws-header-values", h_jws_header, bound={"quick": 1, "thorough": 1}, split_depth=3),
@@ -684,6 +734,7 @@ PARTS = [
     Part("compact-segments", h_segments, bound={"quick": 1, "thorough": 1}, split_depth=2),
     Part("inner-data", h_inner, split_depth=2),
     Part("nested-header-values", h_nested, split_depth=2),
+    Part("thread-schedules", h_threads, bound={"quick": 1, "thorough": 2}, split_depth=2, budget={"quick": 2000, "thorough": 3000}, engine="E3"),
     Part("several-recipients-one-hostile-header", h_recipient_order, split_depth=3),
     Part("json-shapes", h_json_shapes, bound={"quick": 1, "thorough": 1}, split_depth=3),
 ]
